@@ -322,6 +322,11 @@ def _const_text(e, assigns, aug, depth=3):
         return _const_text(e.body, assigns, aug, depth) and _const_text(e.orelse, assigns, aug, depth)
     if isinstance(e, ast.Name) and depth > 0 and e.id in assigns:
         return all(_const_text(v, assigns, aug, depth - 1) for v in assigns[e.id] + aug.get(e.id, []))
+    consts = assigns.get('#constants', {})
+    if isinstance(e, ast.Name) and e.id in consts:
+        return True    # a module-level string constant
+    if isinstance(e, ast.Attribute) and isinstance(e.value, ast.Name) and e.value.id in ('self', 'cls') and e.attr in consts:
+        return True    # a class-level string constant
     return False
 
 
@@ -349,7 +354,12 @@ def log_templates_are_constant(ctx, rule, module_prefixes, floor=5):
             if isinstance(tmpl, ast.Name) and tmpl.id in params and any(isinstance(a, ast.Starred) for a in rest):
                 continue   # a forwarding helper; its callers are judged
             if assigns is None:
-                assigns = local_assignments(fi.node)
+                assigns = dict(local_assignments(fi.node))
+                scopes = list(fi.module.tree.body) + (list(fi.cls.node.body) if fi.cls is not None else [])
+                assigns['#constants'] = {t.id: 1 for st in scopes if isinstance(st, (ast.Assign, ast.AnnAssign)) and
+                                         st.value is not None and _const_text(st.value, {}, {}, 0)
+                                         for t in (st.targets if isinstance(st, ast.Assign) else [st.target])
+                                         if isinstance(t, ast.Name) and t.id not in assigns}
                 aug = {}
                 for x in walk_no_nested(fi.node):
                     if isinstance(x, ast.AugAssign) and isinstance(x.target, ast.Name):
@@ -379,6 +389,17 @@ def element_text_lists_split_on_whitespace(ctx, rule):
         if fi is None:
             continue
         for c in calls_in(fi.node, 'split'):
+            if isinstance(c.func, ast.Attribute) and unparse(c.func.value) == 're' and len(c.args) >= 2 and \
+                    '.text' in unparse(c.args[1]):
+                # re.split(<white space class>, element.text ..)
+                n += 1
+                pat = c.args[0].value if isinstance(c.args[0], ast.Constant) and isinstance(c.args[0].value, str) else ''
+                ok = '\\s' in pat or all(ch in pat for ch in (' ', '\\t', '\\n'))
+                ctx.ob(rule, f'{ci.name}: list items separated by any white space', ok,
+                       f'{ci.name}.get_py_value_from_node splits the element text at any white space' if ok else
+                       f'{ci.name}.get_py_value_from_node splits the element text with {unparse(c)}, which is not every XML white '
+                       f'space: a list wrapped over lines is read as items containing white space', fi=fi, node=c)
+                continue
             if not (isinstance(c.func, ast.Attribute) and isinstance(c.func.value, ast.Attribute) and c.func.value.attr == 'text'):
                 continue
             if isinstance(getattr(c, '_parent', None), ast.Assign) and isinstance(c._parent.targets[0], ast.Tuple):  # noqa: SLF001
@@ -411,3 +432,89 @@ def update_from_other_is_total(ctx, rule):
                f'_update_from_other copies a property only under {cond}: a member that the new version of the container no longer '
                f'has (or has with another kind of value) keeps its old value in the container that is updated in place', fi=fi,
                node=c)
+
+
+def codec_keeps_no_state(ctx, rule, cls_qual, what):
+    """The message reader / factory objects are shared (one per provider or consumer, one per process for discovery) and used
+    from several threads: apart from __init__ no method stores anything on the object - there is nothing a second message could
+    be answered from."""
+    repo = ctx.repo
+    ci = repo.cls(cls_qual)
+    n = 0
+    for name, fi in sorted(ci.methods.items()):
+        if name == '__init__':
+            continue
+        n += 1
+        stores = [unparse(t) for x in walk_no_nested(fi.node) if isinstance(x, (ast.Assign, ast.AugAssign, ast.AnnAssign))
+                  for t in (x.targets if isinstance(x, ast.Assign) else [x.target])
+                  if isinstance(t, (ast.Attribute, ast.Subscript)) and unparse(t).startswith(('self.', 'cls.'))]
+        memo = [unparse(d) for d in fi.node.decorator_list if 'cache' in unparse(d)]
+        if stores or memo:
+            ctx.ob(rule, f'{ci.name}.{name} keeps no state', False,
+                   f'{ci.name}.{name} stores {stores or memo} on the shared {what}: what one thread stored answers the call of '
+                   f'another (a message is read / written from the remains of a different one)', fi=fi)
+    ctx.ob(rule, f'{ci.name} is stateless', True, f'{n} methods of {ci.name} store nothing on the object')
+    ctx.floor(rule, n, 5, f'methods of {ci.name}')
+
+
+_MUTATORS = {'remove', 'pop', 'append', 'clear', 'add', 'discard', 'insert', 'extend', 'popitem', 'update', 'setdefault'}
+_SNAPSHOTS = {'list', 'tuple', 'sorted', 'set', 'dict', 'copy', 'deepcopy', 'frozenset'}
+
+
+def no_mutation_while_iterating(ctx, rule, module_prefixes, floor=3):
+    """A loop that runs directly over a list / dict (not over a snapshot: list(x), x[:], sorted(x) ...) does not add to or
+    remove from that container in its body - unless the loop is left right after (break / return): a list skips the element
+    after a removed one, a dict raises RuntimeError in the middle of the loop and the rest is not visited."""
+    repo = ctx.repo
+    n = 0
+    for q, fi in sorted(repo.funcs.items()):
+        if not fi.module.name.startswith(tuple(module_prefixes)):
+            continue
+        for lp in walk_no_nested(fi.node):
+            if not isinstance(lp, (ast.For, ast.AsyncFor)):
+                continue
+            it = lp.iter
+            if isinstance(it, ast.Call) and isinstance(it.func, ast.Attribute) and it.func.attr in ('values', 'items', 'keys') \
+                    and not it.args:
+                it = it.func.value
+            if not isinstance(it, (ast.Name, ast.Attribute)):
+                continue
+            n += 1
+            bt = unparse(it)
+
+            def leaves_after(block, idx):
+                return idx + 1 < len(block) and isinstance(block[idx + 1], (ast.Break, ast.Return))
+
+            bad = []
+
+            def scan(block):
+                for i, st in enumerate(block):
+                    muts = []
+                    for x in ast.walk(st) if not isinstance(st, (ast.If, ast.For, ast.While, ast.Try, ast.With)) else []:
+                        if isinstance(x, ast.Call) and isinstance(x.func, ast.Attribute) and x.func.attr in _MUTATORS and \
+                                unparse(x.func.value) == bt:
+                            muts.append(unparse(x)[:50])
+                        if isinstance(x, ast.Call) and isinstance(x.func, ast.Attribute) and \
+                                x.func.attr in ('remove_object', 'remove_objects', 'add_object', 'remove_object_no_lock',
+                                                'remove_objects_no_lock', 'add_object_no_lock') and \
+                                bt in (unparse(x.func.value) + '.objects', unparse(x.func.value) + '._objects'):
+                            muts.append(unparse(x)[:50])   # a multikey table iterated through its object list
+                        if isinstance(x, ast.Delete) and any(isinstance(t, ast.Subscript) and unparse(t.value) == bt
+                                                             for t in x.targets):
+                            muts.append(unparse(x)[:50])
+                    if muts and not leaves_after(block, i):
+                        bad.extend(muts)
+                    for sub in ('body', 'orelse', 'finalbody'):
+                        if isinstance(st, (ast.If, ast.For, ast.While, ast.Try, ast.With)) and getattr(st, sub, None):
+                            scan(getattr(st, sub))
+                    if isinstance(st, ast.Try):
+                        for h in st.handlers:
+                            scan(h.body)
+            scan(lp.body)
+            if bad:
+                ctx.ob(rule, f'{fi.name}: loop over {bt} mutates it', False,
+                       f'{fi.cls.name + "." if fi.cls else ""}{fi.name}: the loop runs over {bt} itself and its body does {bad[:2]} '
+                       f'without leaving the loop: elements are skipped (list) or the loop ends with RuntimeError (dict) - '
+                       f'iterate over a snapshot', fi=fi, node=lp)
+    ctx.ob(rule, 'no container is changed while it is iterated', True, f'{n} loops that run directly over a list / dict checked')
+    ctx.floor(rule, n, floor, 'loops over containers')
